@@ -340,6 +340,15 @@ func (g *Gen) newFK(s *Sch, t *Tbl) (*FK, *Col) {
 // NewTable draws a table.
 func (g *Gen) NewTable(s *Sch) *Tbl {
 	t := &Tbl{Name: fmt.Sprintf("t%d", g.next())}
+	// Now and then a user's table is called new_<another table>: the name SQLite's rebuild
+	// procedure uses for its temporary table. It is a table like any other and is not part of
+	// the change set when that other table is rebuilt.
+	if len(s.Tables) > 0 && g.T.Chance("named-like-a-rebuild-temporary", 1, 10) {
+		if o := s.Tables[g.T.Draw("namesake", len(s.Tables))]; s.Table("new_"+o.Name) == nil && !strings.HasPrefix(o.Name, "new_") {
+			t.Name = "new_" + o.Name
+			g.use("table-named-like-a-rebuild-temporary")
+		}
+	}
 	t.Strict = g.T.Chance("strict", 1, 6)
 	if t.Strict {
 		g.use("strict")
@@ -593,6 +602,17 @@ func (g *Gen) Edit(s *Sch, maxTables int) string {
 				g.use("default-changed-to-neighbouring-big-integer")
 				break
 			}
+		}
+		// A text default sometimes changes in nothing but the case of its letters.
+		if strings.HasPrefix(c.Def, "'d") && !c.DefExpr && g.T.Chance("letter-case-only", 1, 4) {
+			c.Def = "'D" + c.Def[2:]
+			g.use("default-changed-in-letter-case-only")
+			break
+		}
+		if strings.HasPrefix(c.Def, "'D") && !c.DefExpr && g.T.Chance("letter-case-only", 1, 2) {
+			c.Def = "'d" + c.Def[2:]
+			g.use("default-changed-in-letter-case-only")
+			break
 		}
 		if c.Def != "" && g.T.Chance("remove-default", 1, 3) {
 			c.Def, c.DefExpr = "", false
